@@ -28,7 +28,7 @@ CompU == LET T == ToSet(Hdr.companions) IN
 AttrOf(e) == [cp |-> e.lo, idp |-> "?", vir |-> e.sig.vir, jt |-> e.sig.jt, sc |-> e.sig.sc, zs |-> e.sig.zs,
               wm |-> e.sig.wm, lower |-> Decode(e.lo, e.sig.lower), bidi |-> e.sig.bidi]
 
-World(e) == [mode |-> "facts", facts |-> <<>>,
+World(e) == [mode |-> "facts", facts |-> <<>>, dev |-> {},
              u |-> [c \in (DOMAIN CompU) \cup {e.lo} |-> IF c = e.lo THEN AttrOf(e) ELSE CompU[c]]]
 
 SigRec(e) == [exc |-> e.sig.exc, bc |-> "", cat |-> ToSet(e.sig.cat)]
